@@ -123,7 +123,7 @@ def install(rec):
         nrm = float(np.linalg.norm(v))
         width = float(ev[-1] - ev[0]) or 1.0
         which = self.which
-        sig = (type(self).__name__, self.L, Hd.shape[0], which, bool(self.cyclic), entry)
+        sig = (type(self).__name__, self.L, Hd.shape[0], which, bool(self.cyclic), entry, self.opts.get("local_eig_ham_dense"))
         tol_rel = 1e-3 if self.cyclic else 1e-7
         rec.check("dmrg", "normalised", abs(nrm - 1.0) <= (1e-3 if self.cyclic else 1e-8),
                   mech="dmrg:state_not_normalised", detail={"norm": nrm, "cyclic": bool(self.cyclic)}, sig=sig)
@@ -266,6 +266,11 @@ def wl_dmrg(rng, rec, tier):
         return {"rejected": "dmrg", "kind": kind}
     CAPS.clear()
     CAPS[id(dm)] = list(bond_dims)
+    eff = "auto"
+    if rng.random() < 0.35:
+        # the matrix-free local eigensolve (what large problems use) on small ones too
+        eff = gen.choice(rng, ["matrix_free", "matrix_free", "dense"])
+        dm.opts["local_eig_ham_dense"] = eff == "dense"
     skw = {"tol": float(gen.choice(rng, [1e-6, 1e-8, 1e-4])), "max_sweeps": int(rng.integers(2, 9)), "verbosity": 0}
     if rng.random() < 0.3:
         skw["sweep_sequence"] = gen.choice(rng, ["R", "L", "RL", "RRL"])
@@ -276,7 +281,7 @@ def wl_dmrg(rng, rec, tier):
         CAPS[id(dm)] = [bond_dims[0], bond_dims[0]] + list(bond_dims)
     gen.attempt2(dm.solve, **skw)
     return {"kind": kind, "L": L, "d": d, "cyclic": cyclic, "cls": cls, "which": which,
-            "bond_dims": bond_dims, "cutoffs": float(cutoffs), "solve": skw}
+            "bond_dims": bond_dims, "cutoffs": float(cutoffs), "solve": skw, "local_eig": eff}
 
 
 WORKLOADS = [
